@@ -154,6 +154,15 @@ func (m *Machine) newScope(parent *Scope) *Scope {
 	return &Scope{Vars: map[string]Value{}, Parent: parent, ID: m.nextID}
 }
 
+// TopVar returns the value of a program-level variable after Run.
+func (m *Machine) TopVar(name string) (Value, bool) {
+	if m.top == nil {
+		return nil, false
+	}
+	v, ok := m.top.Vars[name]
+	return v, ok
+}
+
 // Run executes a program (list of statements) from a fresh state.
 func (m *Machine) Run(prog []*N) (res *Result) {
 	if m.MaxSteps == 0 {
